@@ -163,7 +163,7 @@ def gen_model_raw(rng, *, max_periods=3, allow_stochastic=True, allow_filter=Tru
     eq_size = rng.choice([2, 3])
     for i, n in enumerate(snames):
         cont = rng.random() < 0.45
-        if "filter" in force and i == 0:
+        if ({"filter", "period_filter"} & force) and i == 0:
             cont = False
         if "two_stochastic" in force and i < 2:
             states.append([n, {"d": eq_size}])      # two stochastic states of EQUAL size
@@ -211,6 +211,10 @@ def gen_model_raw(rng, *, max_periods=3, allow_stochastic=True, allow_filter=Tru
             use_period = ("period_filter" in force and k == 0) or ("period_filter" not in force and rng.random() < 0.3)
             for _ in range(30):
                 body = X.gen_bool(rng, names + (["_period"] if use_period else []), 2)
+                if use_period and rng.random() < 0.7:
+                    # everything passes in ONE period, a non-trivial restriction applies in the others:
+                    # the space of an interior period differs from the space of period 0
+                    body = ["or", X.gen_bool(rng, names, 2), ["==", X.v("_period"), X.c(rng.choice([0, 0, 1]))]]
                 used_names = X.names_in(body)
                 if not set(fs) <= used_names or not set(fc) <= used_names:
                     continue
